@@ -23,8 +23,10 @@ PROBES = {"C09": ["ensemble", "pipeline", "multiplexer", "stacking", "online_ens
                   "final_forecaster_representation_checked", "holdout_checked",
                   "members_are_clones_checked", "parallel_member_fit", "update_params_false",
                   "reconfigured_and_refitted", "multiplexer_intervals_checked",
-                  "weights_from_out_of_sample_forecasts_checked", "pipeline_as_transformer_step"]}
-FAULT_KINDS = {"C09": ["schedule_ooo", "schedule_interleave", "overlap_batch", "pickle_roundtrip"]}
+                  "weights_from_out_of_sample_forecasts_checked", "pipeline_as_transformer_step",
+                  "member_fit_params_checked", "sibling_from_same_arguments"]}
+FAULT_KINDS = {"C09": ["schedule_ooo", "schedule_interleave", "overlap_batch", "pickle_roundtrip",
+                       "shared_constructor_arguments"]}
 RULE = {"C09": (
     "seeded composition (ensemble/pipeline/multiplexer/stacking over spy-wrapped real forecasters "
     "and transformers, members optionally composites themselves) x series x horizon x history "
@@ -222,9 +224,13 @@ def execute(prop, scen):
                 label, type(e).__name__, str(e)[:200]), op=label, exc=type(e).__name__)
             return False, None
 
+    fit_kw = {}
+    if kind == "mux" and scen["series"]["seed"] % 5 < 2:
+        # per-member fit parameters: the selected member gets its own
+        fit_kw = {"m%d" % i: {"spy_marker": i} for i in range(len(spec["members"]))}
     with sched.scenario_schedule(sc):
         mark = len(peers.CTX.log)
-        ok, _ = run("fit", lambda: comp.fit(y0, fh=fh_fit))
+        ok, _ = run("fit", lambda: comp.fit(y0, fh=fh_fit, **fit_kw))
         if not ok:
             res.sched = sc.stats()
             res.digest = "fit_raised"
@@ -239,6 +245,25 @@ def execute(prop, scen):
                     res.sched = sc.stats()
                     return res
         check_fit_dataflow(v, res, spec, peers.CTX.log[mark:], y0, steps, ref, user_ids)
+        if fit_kw and not res.violations:
+            fits_ = _by_tag(peers.CTX.log[mark:], "m%d" % spec["selected"], "fit")
+            res.probe("member_fit_params_checked")
+            if fits_ and fits_[0].get("fit_params") != {"spy_marker": spec["selected"]}:
+                v("fit_params_misrouted", "the selected member m%d was fitted with fit_params %s, its "
+                  "own are {'spy_marker': %d}" % (spec["selected"], fits_[0].get("fit_params"),
+                                                  spec["selected"]))
+        if scen["series"]["seed"] % 7 < 2 and not res.violations and kind != "online":
+            # somebody builds a second composite from the very same constructor arguments (the
+            # same list object, the same component objects) and fits it on other data
+            with peers.paused():
+                try:
+                    sib = type(comp)(**comp.get_params(deep=False))
+                    with sched.scenario_schedule(sched.Scheduler("fifo", 0)):
+                        sib.fit(y0 * 2.0 + 3.0, fh=fh_fit)
+                    res.probe("sibling_from_same_arguments")
+                    res.fault("shared_constructor_arguments")
+                except Exception as e:  # noqa
+                    digest.update(("sibling:%s" % type(e).__name__).encode())
         res.ops += 1
         updated = 0
         for hi in range(len(scen["history"]) + 1):
